@@ -1009,6 +1009,7 @@ func famStreams(dir string, seed int64, tier string) {
 	}
 	streamsSharedToken(repC)
 	streamsMarshalFaults(repP)
+	apiCompareFaults(repP, r, 200)
 	streamsDerefSubFault(repP)
 	wC.flush()
 	wP.flush()
